@@ -17,7 +17,7 @@ ID = "C08"
 LEVEL = "exploration"
 TECHNIQUE = "exhaustive enumeration of wrapper stacks x option dictionaries with an independent overlay oracle and deep-snapshot immutability checks"
 RULE = (
-    "X in {tuple of A/S.X/S.Y reads, whole-section read, dataset with callback+effects, dataset with dispatch and "
+    "X in {tuple of A/S.X/S.Y reads, whole-section read, dataset with callback+effects (also spelled as a chain of specialised factories with .where() parameters), dataset with dispatch and "
     "overloads, dataset whose overloads are registered after the wrapper stack was built, nocache dataset}; wrapper layers WithOptions / WithDefaultOptions / decorator options= / "
     "default_options= / both / .with_options / .with_default_options, all stacks of depth <= 3 (dataset-level layers "
     "only while the object is still a Dataset); 4 pre-set and 3 default dictionaries overlapping inside section S; "
@@ -40,6 +40,7 @@ def _xs():
     X.append(("read3", READ3, False))
     X.append(("section", ("opt", "S", ("val", {})), False))
     X.append(("ds-cb-eff", ("ds", "x3", {"params": [("opt", "A", ("val", 0)), ("opt", "S", ("val", {}))], "callback": ("fn", "cb"), "effects": ["e"]}), True))
+    X.append(("ds-cb-eff-chain", ("ds", "x3c", {"params": [("opt", "A", ("val", 0)), ("opt", "S", ("val", {}))], "callback": ("fn", "cb"), "effects": ["e"], "factory": "chain"}), True))
     X.append(("ds-dispatch", ("ds", "x4", {"params": [("opt", "S.Y", ("val", 0))], "dispatch": ("optkey", "A"),
                                            "overloads": [(9, ("opt", "S.X", ("val", 0))), (1, ("val", "one")), (8, READ3)], "callback": ("fn", "cb")}), True))
     # an overload registered on the base dataset AFTER every wrapper / derivative of the stack has been built
